@@ -52,6 +52,10 @@ def systematic(fam, profile):
         out.append(("fitted", [g("1week"), g("1week"), p("1weekb_noobs"), p("partialyear_noobs"), p("fullyear_noobs"),
                                p("partialyear_noobs")]))
         out.append(("reloaded", [p("1day"), p("1month_noobs"), p("partialyear"), p("1day"), p("fullyear")]))
+    if fam == "Hourly" and profile == "supp":
+        q = ("predict", ix(fam, "H.rep_1weekb_occ"))
+        out.append(("fitted", [p("1weekb"), q, p("1weekb"), ("to_json",), p("fullyear")]))
+        out.append(("reloaded", [p("fullyear"), q, q, p("fullyear")]))
     if profile == "default":
         # data objects: every constructor once, hand-outs, caller mutations
         ops = []
@@ -75,9 +79,9 @@ def systematic(fam, profile):
     return out
 
 
-def random_history(rng, fam, profile):
+def random_history(rng, fam, profile, maxlen=9):
     names = L.OBJ_ORDER[fam]
-    n = rng.randrange(3, 9)
+    n = rng.randrange(3, maxlen)
     ops = []
     nfit = 0
     preds = [i for i, nm in enumerate(names)]
@@ -103,6 +107,25 @@ def random_history(rng, fam, profile):
     return rng.choice(["fitted", "reloaded"]), ops
 
 
+def by_name(fam, ops):
+    """corpus histories name their data sets; the executor works with positions"""
+    out = []
+    for o in ops:
+        o = list(o)
+        if o[0] == "predict" and isinstance(o[1], str):
+            o[1] = ix(fam, o[1])
+        elif o[0] == "construct" and isinstance(o[1], str):
+            o[1] = spec_ix(fam, o[1])
+        elif o[0] == "df":
+            k, n = o[1]
+            o[1] = (k, ix(fam, n) if isinstance(n, str) else n)
+        elif o[0] == "fit_other" and isinstance(o[1], str):
+            bases = [n for n in L.OBJ_ORDER[fam] if L.OBJ[n]["role"] == "baseline" and n != L.MAIN_BASE[fam]]
+            o[1] = bases.index(o[1])
+        out.append(tuple(o))
+    return out
+
+
 def canon(job):
     return {"fam": job["fam"], "profile": job["profile"], "lineage": job["lineage"], "ops": [list(o) for o in job["ops"]]}
 
@@ -119,26 +142,52 @@ def tup(ops):
 
 # ------------------------------------------------------------------ pool helpers
 
-def pmap(fn, jobs, procs=16):
+def pmap(fn, jobs, procs=16, isolate=False):
+    """fork-based pool. isolate=True: every job in a process forked freshly from the parent (used for shrinking, where a
+    violating implementation may have damaged the shared data objects); otherwise one fork per worker."""
     if not jobs:
         return []
     ctx = mp.get_context("fork")
-    with ctx.Pool(min(procs, len(jobs)), maxtasksperchild=1) as pool:
+    n = min(procs, len(jobs))
+    if isolate:
+        with ctx.Pool(n, maxtasksperchild=1) as pool:
+            return pool.map(fn, jobs, chunksize=1)
+    with ctx.Pool(n) as pool:
         return pool.map(fn, jobs, chunksize=1)
 
 
-def shrink(job, sig, run):
-    """remove operations while the same signature is still reported"""
+def run_chunk(chunk):
+    """histories of one worker; when a history damaged a shared data object the rest of the chunk is run in a fresh fork"""
+    out = []
+    for k, job in enumerate(chunk):
+        r = L.run_history(job)
+        out.append(r)
+        if r.get("damaged"):
+            break                  # the parent runs the rest of the chunk in fresh forks
+    return out
+
+
+def shrink(job, sig, run, seconds=40):
+    """remove operations (chunks first, then single ones) while the same signature is still reported"""
     ops = list(job["ops"])
-    budget = 6
-    while budget > 0 and len(ops) > 1:
-        budget -= 1
-        cands = [dict(job, ops=ops[:i] + ops[i + 1:]) for i in range(len(ops))]
-        res = pmap(L.run_history, cands)
-        for c, r in zip(cands, res):
-            if any(s == sig for s, _, _ in r["fails"]):
-                ops = c["ops"]
-                break
+    t0 = time.time()
+    n = max(1, len(ops) // 2)
+    while len(ops) > 1 and time.time() - t0 < seconds:
+        cands = []
+        for i in range(0, len(ops), n):
+            c = ops[:i] + ops[i + n:]
+            if c:
+                cands.append(dict(job, ops=c))
+        # the shortest histories first: a single operation on its own
+        if n == 1 or len(ops) <= 4:
+            cands += [dict(job, ops=[o]) for o in ops]
+        res = pmap(L.run_history, cands, isolate=True)
+        hit = [c for c, r in zip(cands, res) if any(s == sig for s, _, _ in r["fails"])]
+        if hit:
+            ops = min(hit, key=lambda c: len(c["ops"]))["ops"]
+            n = max(1, min(n, len(ops) // 2))
+        elif n > 1:
+            n = n // 2
         else:
             break
     return dict(job, ops=ops)
@@ -170,13 +219,22 @@ def main():
         "Model/HourlyState.v re-specifies reindex / unstack+ffill+bfill+stack of pandas on the temporal-cluster table; the "
         "nearest-profile label choice is an oracle (contract: a label already present in the table), read from the implementation",
     ]
-    flags = T.generate(run)
+    flags = T.generate(run if not NOCOQ else False)
     run.cov["source_flags"] = flags
     ok = True
     if not NOCOQ:
-        ok = run.check_proofs("Properties/C02.v", ["Proofs/HourlyStateProofs.v", "Proofs/StoreProofs.v"],
-                              generated=["Generated/C02Gen.v"])
-        run.ensure_models(["Model/HourlyStateRun.v", "Model/StoreRun.v", "Model/CasesLib.v"])
+        for attempt in range(3):
+            ok = run.check_proofs("Properties/C02.v", ["Proofs/HourlyStateProofs.v", "Proofs/StoreProofs.v", "Proofs/SideEffectProofs.v"],
+                                  generated=["Generated/C02Gen.v"])
+            # other checks / builders run make in the same tree: a dependency that was being rebuilt by them at that
+            # moment shows up as a missing or inconsistent .vo, not as a failed proof; build again
+            if ok or not any(t in run.proof_log for t in ("Cannot find a physical path", "inconsistent assumptions",
+                                                          "Cannot load", "No rule to make target", "bad magic")):
+                break
+            run.log("build disturbed by a concurrent make, retrying")
+            time.sleep(5 + 10 * attempt)
+            run.proof_log = ""
+        run.ensure_models(["Generated/C02Gen.v", "Model/HourlyStateRun.v", "Model/StoreRun.v", "Model/CasesLib.v"])
     t0 = time.time()
     problems = L.build_world(run.seed)
     run.log("world built in %.1fs (%d data objects)" % (time.time() - t0, len(L.OBJ)))
@@ -192,12 +250,6 @@ def main():
         else:
             L.MODELS[key] = L.fit_main(*key)
     run.log("main models fitted")
-    # reference predictions on fresh copies
-    refjobs = [(f, p, lin, n) for (f, p) in keys for lin in ("fitted", "reloaded") for n in L.OBJ_ORDER[f]]
-    for job, d in pmap(L.ref_job, refjobs):
-        L.REF[job] = d
-    nexc = sum(1 for v in L.REF.values() if v.startswith("EXC"))
-    run.log("reference predictions: %d (%d raise)" % (len(L.REF), nexc))
     # histories
     jobs = []
     if run.replay:
@@ -208,16 +260,65 @@ def main():
         cpath = os.path.join(vlib.VERIF, "corpus", "C02.json")
         if os.path.exists(cpath):
             for c in json.load(open(cpath)):
-                jobs.append({"fam": c["fam"], "profile": c["profile"], "lineage": c["lineage"], "ops": tup(c["ops"]), "corpus": True})
+                try:
+                    jobs.append({"fam": c["fam"], "profile": c["profile"], "lineage": c["lineage"],
+                                 "ops": by_name(c["fam"], c["ops"]), "corpus": True})
+                except (KeyError, ValueError, IndexError) as e:
+                    run.log("corpus entry skipped (%s): %s" % (e, c.get("note")))
         for fam, prof in keys:
             for lin, ops in systematic(fam, prof):
                 jobs.append({"fam": fam, "profile": prof, "lineage": lin, "ops": ops})
-            for _ in range(run.n(4, 120) if fam != "Caltrack" else run.n(2, 40)):
-                lin, ops = random_history(run.rng, fam, prof)
+            for _ in range(run.n(4, 300) if fam != "Caltrack" else run.n(2, 100)):
+                lin, ops = random_history(run.rng, fam, prof, maxlen=run.n(9, 21))
                 jobs.append({"fam": fam, "profile": prof, "lineage": lin, "ops": ops})
-    results = pmap(L.run_history, jobs)
+    # reference predictions on fresh copies (fitted object / reloaded object) for every data set some history predicts
+    need = set()
+    for job in jobs:
+        names = L.OBJ_ORDER[job["fam"]]
+        for o in job["ops"]:
+            if o[0] == "predict":
+                for lin in ("fitted", "reloaded"):
+                    need.add((job["fam"], job["profile"], lin, names[o[1] % len(names)]))
+        for n in names:                       # the hourly correspondence asks whether the numeric stage raises on a data set
+            if job["fam"] == "Hourly" and (job["fam"], job["profile"], "fitted", n) in need:
+                pass
+    for job, d in pmap(L.ref_job, sorted(need)):
+        L.REF[job] = d
+    nexc = sum(1 for v in L.REF.values() if v.startswith("EXC"))
+    run.log("reference predictions: %d (%d raise)" % (len(L.REF), nexc))
+    nw = min(16, len(jobs))
+    chunks = [jobs[i::nw] for i in range(nw)]
+    ctx = mp.get_context("fork")
+    with ctx.Pool(nw) as pool:
+        parts = pool.map(run_chunk, chunks, chunksize=1)
+    results = [None] * len(jobs)
+    for i, part in enumerate(parts):
+        for k, r in enumerate(part):
+            results[i + k * nw] = r
+    rest = [i for i, r in enumerate(results) if r is None]
+    for i, r in zip(rest, pmap(L.run_history, [jobs[i] for i in rest], isolate=True)):
+        results[i] = r
     run.log("%d histories executed" % len(jobs))
     reported = set()
+    # a run in which a family never predicts proves nothing; an exception that is no designed outcome is a defect
+    okpred = {}
+    for job, res in zip(jobs, results):
+        for rec in res["trace"]:
+            if rec["op"][0] == "predict":
+                k = (job["fam"], job["profile"])
+                okpred.setdefault(k, 0)
+                okpred[k] += 0 if str(rec["pred"]).startswith("EXC") else 1
+    for k, n in sorted(okpred.items()):
+        if n == 0 and not run.replay:
+            run.corr_failures.append({"stream": "vacuity", "case": {"fam": k[0], "profile": k[1]},
+                                      "model": "no prediction of this family/profile succeeded in the whole run"})
+    for (fam, prof, lin, name), d in sorted(L.REF.items()):
+        if d.startswith("EXC:") and d.split(":")[1] not in ("ValueError",):
+            run.violation({"family": fam, "call": L.model_class(fam).__name__ + ".predict", "broken": "a fresh model raises",
+                           "got": d.split(":")[1]},
+                          "C02 %s: predict(%s) on a fresh %s copy raises %s" % (fam, name, lin, d.split(":")[1]),
+                          case={"fam": fam, "profile": prof, "lineage": lin, "ops": [["predict", L.OBJ_ORDER[fam].index(name)]]},
+                          generator="c02 reference predictions")
     for job, res in zip(jobs, results):
         ops = job["ops"]
         kinds = [o[0] for o in ops]
@@ -233,8 +334,9 @@ def main():
                          ("equals fresh copy" if rec["pred"] == rec["ref"] else "differs from fresh copy"))
         for sig, msg, step in res["fails"]:
             case = dict(canon(job), step=step)
-            if run.match_known(sig) is None and vlib.sha(sig) not in reported:
+            if run.match_known(sig) is None and vlib.sha(sig) not in reported and len(reported) < 4:
                 reported.add(vlib.sha(sig))
+                run.log("shrinking a history of %d operations for %s" % (len(ops), sig))
                 small = shrink(job, sig, run)
                 case = dict(canon(small), step=None, shrunk_from=len(ops))
             run.violation(sig, "C02 %s: %s" % (job["fam"], msg), case=case,
